@@ -379,6 +379,11 @@ def on_type_with_overridden_serialization(
                 instance.update_type(new_type)
         except Exception as e:
             override_with_any(e)
+        else:
+            # what the function returns is written as it is: the field's
+            # options (this override among them) do not apply to the parts
+            # of the returned type
+            return get_schema(instance.derive_element(), ctx)
         return get_schema(instance, ctx)
 
 
